@@ -2278,3 +2278,268 @@ Section AllocFail.
     - exists s1. auto.
   Qed.
 End AllocFail.
+
+(** * Frame: what a call can do to the parts of the state it does not own *)
+Inductive frame (s s' : st) : Prop := Frame (H :
+  alloc_ok (al s) ->
+  alloc_ok (al s') /\ exts s' = exts s /\ (next (al s) <= next (al s'))%nat /\
+  (exists l, log s' = l ++ log s) /\
+  (forall b, lookup b (descs s') = lookup b (descs s) \/ In (MA (EvFree b)) (log s') \/ In (MA (EvBadFree b)) (log s')) /\
+  (forall b, is_live (al s) b = true ->
+             block_size (al s') b = block_size (al s) b \/ In (MA (EvFree b)) (log s'))).
+
+Lemma block_size_live a b : is_live a b = true <-> block_size a b <> None.
+Proof.
+  unfold is_live, block_size. split.
+  - intros L. apply existsb_exists in L. destruct L as (x & I & E).
+    destruct (find (fun p : nat * N => Nat.eqb (fst p) b) (live a)) eqn:Fd; [discriminate|].
+    eapply find_none in Fd; eauto. congruence.
+  - destruct (find (fun p : nat * N => Nat.eqb (fst p) b) (live a)) as [x|] eqn:Fd; [|cbn; congruence].
+    intros _. apply find_some in Fd. apply existsb_exists. exists x. auto.
+Qed.
+
+Lemma frame_refl s : frame s s.
+Proof. constructor. intros A. split; auto. split; auto. split; auto. split; [exists []; auto|]. split; auto. Qed.
+
+Lemma frame_trans s1 s2 s3 : frame s1 s2 -> frame s2 s3 -> frame s1 s3.
+Proof.
+  intros [F1] [F2]. constructor. intros A1. destruct (F1 A1) as (A2 & X1 & N1 & (l1 & L1) & D1 & B1). destruct (F2 A2) as (A3 & X2 & N2 & (l2 & L2) & D2 & B2).
+  split; auto. split; [congruence|]. split; [lia|]. split; [exists (l2 ++ l1); rewrite L2, L1, app_assoc; auto|].
+  assert (M : forall e, In e (log s2) -> In e (log s3)) by (intros e H; rewrite L2; apply in_or_app; auto).
+  split.
+  - intros b. destruct (D2 b) as [E|[E|E]]; auto. rewrite E. destruct (D1 b) as [E'|[E'|E']]; auto.
+  - intros b L. destruct (B1 b L) as [E|E]; auto.
+    assert (L2' : is_live (al s2) b = true).
+    { apply block_size_live. rewrite E. apply block_size_live. auto. }
+    destruct (B2 b L2') as [E2|E2]; auto. left. congruence.
+Qed.
+
+Lemma frame_same s s' :
+  al s' = al s -> descs s' = descs s -> exts s' = exts s -> log s' = log s -> frame s s'.
+Proof.
+  intros A D X L. constructor. intros O. rewrite A, D, X, L. split; auto. split; auto. split; auto. split; [exists []; auto|]. split; auto.
+Qed.
+
+Lemma frame_add_log s e : frame s (add_log s e).
+Proof.
+  constructor. intros A. unfold add_log. cbn. split; auto. split; auto. split; auto. split; [exists [e]; auto|]. split; auto.
+Qed.
+
+Lemma block_size_remove b b' l :
+  b <> b' -> option_map snd (find (fun p : nat * N => Nat.eqb (fst p) b') (remove_block b l)) =
+             option_map snd (find (fun p : nat * N => Nat.eqb (fst p) b') l).
+Proof.
+  intros N. unfold remove_block. induction l as [|(x & y) r IH]; cbn; auto.
+  destruct (Nat.eqb_spec x b) as [->|Nx]; cbn.
+  - destruct (Nat.eqb_spec b b'); [congruence|]. auto.
+  - destruct (Nat.eqb_spec x b'); auto.
+Qed.
+
+Lemma frame_do_free s p : frame s (do_free s p).
+Proof.
+  destruct p as [b|]; [|apply frame_refl]. constructor. intros A. unfold do_free. cbn [al objs datas descs exts log].
+  split; [apply free_ok; auto|]. split; auto. split; [rewrite next_free; auto|]. split; [eexists [_]; reflexivity|]. split.
+  - intros b'. rewrite lookup_remove. destruct (Nat.eqb_spec b b') as [->|N]; auto.
+    right. destruct (is_live (al s) b'); [left|right]; left; auto.
+  - intros b' L. unfold free. destruct (is_live (al s) b) eqn:Lb; auto.
+    destruct (Nat.eq_dec b b') as [->|N].
+    + right. left. auto.
+    + left. unfold block_size. cbn [live]. apply block_size_remove; auto.
+Qed.
+
+Section Frame.
+  Variable ok : nat -> N -> bool.
+
+  Lemma frame_do_malloc s sz : frame s (fst (do_malloc ok s sz)).
+  Proof.
+    constructor. intros A. unfold do_malloc. destruct (malloc ok (al s) sz) as (a' & r) eqn:M. cbn [fst].
+    unfold add_log, set_al. cbn [al objs datas descs exts log].
+    split; [eapply malloc_ok; eauto|]. split; auto.
+    split; [destruct r; [apply malloc_some in M; destruct M as (_ & _ & ->); lia|apply malloc_none in M; destruct M as (_ & ->); lia]|].
+    split; [eexists [_]; reflexivity|]. split; auto.
+    intros b L. left. destruct r as [b'|].
+    - apply malloc_some in M. destruct M as (-> & LL & _). unfold block_size. rewrite LL. cbn.
+      destruct (Nat.eqb_spec (next (al s)) b) as [<-|]; auto.
+      rewrite fresh_not_live in L by auto. discriminate.
+    - apply malloc_none in M. destruct M as (LL & _). unfold block_size. rewrite LL. reflexivity.
+  Qed.
+End Frame.
+
+Lemma frame_do_malloc' ok s sz s2 r : do_malloc ok s sz = (s2, r) -> frame s s2.
+Proof. intros E. pose proof (frame_do_malloc ok s sz) as F. rewrite E in F. exact F. Qed.
+
+Lemma ok_inj {A} (a b : A) : Ok a = Ok b -> a = b.
+Proof. congruence. Qed.
+Ltac okinj H := apply ok_inj in H; subst.
+
+Ltac bind_inv H :=
+  match type of H with
+  | bind ?r _ = Ok _ => let E := fresh "E" in destruct r eqn:E; cbn [bind] in H; [|discriminate|discriminate]
+  end.
+
+Lemma frame_wr_up s a u : frame s (wr_up s a u).
+Proof.
+  destruct a as [i|d]; unfold wr_up.
+  - destruct (nth_error (objs s) i); [apply frame_same; reflexivity|apply frame_refl].
+  - destruct (lookup d (datas s)); [apply frame_same; reflexivity|apply frame_refl].
+Qed.
+Lemma frame_wr_gp s i g : frame s (wr_gp s i g).
+Proof. unfold wr_gp. destruct (nth_error (objs s) i); [apply frame_same; reflexivity|apply frame_refl]. Qed.
+Lemma frame_wr_data s d D : frame s (wr_data s d D).
+Proof. apply frame_same; reflexivity. Qed.
+Lemma frame_unique_init s a : frame s (unique_init s a).
+Proof. apply frame_wr_up. Qed.
+
+Ltac fr_prim :=
+  match goal with
+  | |- frame ?s ?s => apply frame_refl
+  | |- frame _ (do_free _ _) => eapply frame_trans; [|apply frame_do_free]
+  | |- frame _ (wr_data _ _ _) => eapply frame_trans; [|apply frame_wr_data]
+  | |- frame _ (wr_gp _ _ _) => eapply frame_trans; [|apply frame_wr_gp]
+  | |- frame _ (wr_up _ _ _) => eapply frame_trans; [|apply frame_wr_up]
+  | |- frame _ (unique_init _ _) => eapply frame_trans; [|apply frame_unique_init]
+  | |- frame _ (add_log _ _) => eapply frame_trans; [|apply frame_add_log]
+  | H : do_malloc _ ?a _ = (?b, _) |- frame _ ?b => eapply frame_trans; [|eapply frame_do_malloc'; exact H]
+  end.
+
+Lemma frame_unique_reset s a s' : unique_reset s a = Ok s' -> frame s s'.
+Proof.
+  unfold unique_reset. intros H. bind_inv H. bind_inv H. okinj H.
+  destruct (uclr a0); repeat fr_prim.
+Qed.
+
+Ltac fr_fun1 := first [fr_prim | match goal with
+  | H : unique_reset ?a _ = Ok ?b |- frame _ ?b => eapply frame_trans; [|eapply frame_unique_reset; exact H]
+  end].
+
+Lemma frame_weak_reset s i s' : weak_reset s i = Ok s' -> frame s s'.
+Proof.
+  unfold weak_reset. intros H. bind_inv H. bind_inv H. destruct a0 as [d|]; [|okinj H; apply frame_refl].
+  bind_inv H. destruct (soft a0 =? 1); okinj H; repeat fr_prim.
+Qed.
+
+Ltac fr_fun2 := first [fr_fun1 | match goal with
+  | H : weak_reset ?a _ = Ok ?b |- frame _ ?b => eapply frame_trans; [|eapply frame_weak_reset; exact H]
+  end].
+
+Lemma frame_shared_reset s i s' : shared_reset s i = Ok s' -> frame s s'.
+Proof.
+  unfold shared_reset. intros H. bind_inv H. bind_inv H. destruct a0 as [d|]; [|okinj H; apply frame_refl].
+  bind_inv H. bind_inv H. destruct (hard a0 =? 1); [|okinj E2]; repeat fr_fun2.
+Qed.
+
+Ltac fr_fun3 := first [fr_fun2 | match goal with
+  | H : shared_reset ?a _ = Ok ?b |- frame _ ?b => eapply frame_trans; [|eapply frame_shared_reset; exact H]
+  end].
+
+Section Frame2.
+  Variable ok : nat -> N -> bool.
+
+  Lemma frame_unique_alloc s a sz cb s' : unique_alloc ok s a sz cb = Ok s' -> frame s s'.
+  Proof.
+    unfold unique_alloc. intros H. bind_inv H.
+    destruct (0 <? sz); [|okinj H; repeat fr_fun3].
+    destruct (do_malloc ok a0 sz) as (s2 & [m|]) eqn:M; okinj H; repeat fr_fun3.
+  Qed.
+
+  Lemma frame_shared_alloc s i sz cb s' : shared_alloc ok s i sz cb = Ok s' -> frame s s'.
+  Proof.
+    unfold shared_alloc. intros H. bind_inv H.
+    destruct (0 <? sz); [|okinj H; repeat fr_fun3].
+    destruct (do_malloc ok a DATA_SZ) as (s2 & [d|]) eqn:M; [|okinj H; repeat fr_fun3].
+    bind_inv H. bind_inv H. apply frame_unique_alloc in E0.
+    destruct a1; okinj H; repeat fr_fun3; (eapply frame_trans; [|exact E0]); repeat fr_fun3.
+  Qed.
+End Frame2.
+
+Lemma frame_shared_share s e n s' : shared_share s e n = Ok s' -> frame s s'.
+Proof.
+  unfold shared_share. intros H. bind_inv H. bind_inv H. bind_inv H. bind_inv H. bind_inv H.
+  destruct a3; [bind_inv H|]; okinj H; repeat fr_fun3.
+Qed.
+
+Lemma frame_gp_swap s a b s' : gp_swap s a b = Ok s' -> frame s s'.
+Proof. unfold gp_swap. intros H. repeat bind_inv H. okinj H. repeat fr_fun3. Qed.
+
+Lemma frame_weak_from s w sp s' : weak_from s w sp = Ok s' -> frame s s'.
+Proof.
+  unfold weak_from. intros H. bind_inv H. bind_inv H. bind_inv H. bind_inv H. bind_inv H.
+  destruct a3; [bind_inv H|]; okinj H; repeat fr_fun3.
+Qed.
+
+Lemma frame_weak_lock s w sp s' : weak_lock s w sp = Ok s' -> frame s s'.
+Proof.
+  unfold weak_lock. intros H. bind_inv H. bind_inv H. bind_inv H. bind_inv H. bind_inv H.
+  destruct a3; [|okinj H; repeat fr_fun3]. bind_inv H.
+  destruct (0 <? hard a3); bind_inv H; okinj H; repeat fr_fun3.
+Qed.
+
+Lemma frame_unique_swap s a b s' : unique_swap s a b = Ok s' -> frame s s'.
+Proof. unfold unique_swap. intros H. repeat bind_inv H. okinj H. repeat fr_fun3. Qed.
+
+Lemma done_inj {S} (a b : S) o o' : Done a o = Done b o' -> a = b.
+Proof. congruence. Qed.
+
+Section Frame3.
+  Variable ok : nat -> N -> bool.
+
+  Lemma frame_mstep s o s' out : mstep ok s o = Done s' out -> frame s s'.
+  Proof.
+    unfold mstep. destruct (mdom s o); [|discriminate]. destruct o; cbn [mexec]; unfold of_res; intros H.
+    - apply done_inj in H; subst s'. apply frame_unique_init.
+    - destruct (unique_alloc ok s (ASlot u) sz cb) eqn:E; try discriminate. apply done_inj in H; subst s'. eapply frame_unique_alloc; eauto.
+    - destruct (unique_get s (ASlot u)); try discriminate. apply done_inj in H; subst s'. apply frame_refl.
+    - destruct (unique_release s (ASlot u)) as [((s1 & p) & c)| |] eqn:E; try discriminate. apply done_inj in H; subst s'.
+      unfold unique_release in E. repeat bind_inv E. apply ok_inj in E.
+      assert (X : unique_init s (ASlot u) = s1) by congruence. subst s1. repeat fr_fun3.
+    - destruct (unique_swap s (ASlot u) (ASlot v)) eqn:E; try discriminate. apply done_inj in H; subst s'. eapply frame_unique_swap; eauto.
+    - destruct (unique_reset s (ASlot u)) eqn:E; try discriminate. apply done_inj in H; subst s'. eapply frame_unique_reset; eauto.
+    - apply done_inj in H; subst s'. unfold obj_reinit. destruct (nth_error (objs s) s0); [apply frame_same; reflexivity|apply frame_refl].
+    - destruct (shared_alloc ok s s0 sz _) eqn:E; try discriminate. apply done_inj in H; subst s'. eapply frame_shared_alloc; eauto.
+    - destruct (shared_get s s0); try discriminate. apply done_inj in H; subst s'. apply frame_refl.
+    - destruct (shared_unique s s0); try discriminate. apply done_inj in H; subst s'. apply frame_refl.
+    - destruct (shared_share s e n) eqn:E; try discriminate. apply done_inj in H; subst s'. eapply frame_shared_share; eauto.
+    - destruct (gp_swap s a b) eqn:E; try discriminate. apply done_inj in H; subst s'. eapply frame_gp_swap; eauto.
+    - destruct (shared_reset s s0) eqn:E; try discriminate. apply done_inj in H; subst s'. eapply frame_shared_reset; eauto.
+    - apply done_inj in H; subst s'. unfold obj_reinit. destruct (nth_error (objs s) w); [apply frame_same; reflexivity|apply frame_refl].
+    - destruct (weak_from s w s0) eqn:E; try discriminate. apply done_inj in H; subst s'. eapply frame_weak_from; eauto.
+    - destruct (weak_lock s w s0) eqn:E; try discriminate. apply done_inj in H; subst s'. eapply frame_weak_lock; eauto.
+    - destruct (gp_swap s a b) eqn:E; try discriminate. apply done_inj in H; subst s'. eapply frame_gp_swap; eauto.
+    - destruct (weak_reset s w) eqn:E; try discriminate. apply done_inj in H; subst s'. eapply frame_weak_reset; eauto.
+    - apply done_inj in H; subst s'. unfold stray_copy. destruct (nth_error (objs s) src); [apply frame_same; reflexivity|apply frame_refl].
+  Qed.
+End Frame3.
+
+Lemma freed_app l1 l2 : freed (l1 ++ l2) = freed l1 ++ freed l2.
+Proof. unfold freed. apply flat_map_app. Qed.
+
+Lemma In_freed l b : In b (freed l) <-> In (MA (EvFree b)) l.
+Proof.
+  unfold freed. rewrite in_flat_map. split.
+  - intros (e & I & H). destruct e as [[]|]; cbn in H; try tauto. destruct H as [<-|[]]. auto.
+  - intros I. exists (MA (EvFree b)). split; auto. left. auto.
+Qed.
+
+Section Timing.
+  Variable ok : nat -> N -> bool.
+
+  (** destroy_exactly_once (timing): the events appended by one call release
+      exactly the blocks that were live before and are not owned afterwards *)
+  Theorem step_releases s o s' out :
+    inv s -> mstep ok s o = Done s' out ->
+    exists l, log s' = l ++ log s /\
+      forall b, is_live (al s) b = true -> (In b (freed l) <-> is_live (al s') b = false).
+  Proof.
+    intros I E. pose proof (mstep_outcome ok s o I) as Q. rewrite E in Q. destruct Q as (I' & _).
+    destruct (frame_mstep ok s o s' out E) as [F]. pose proof (inv_log _ _ I) as (A & _ & _ & FR & _).
+    destruct (F A) as (A' & _ & NX & (l & L) & _ & _). exists l. split; auto. intros b Lb.
+    pose proof (inv_log _ _ I') as (_ & _ & ND' & FR' & _). rewrite L, freed_app in ND', FR'.
+    assert (NB : ~ In b (freed (log s))) by (rewrite FR; intros (_ & X); congruence).
+    assert (LT : (b < next (al s'))%nat).
+    { destruct A as (_ & A). specialize (A b). rewrite <- is_live_In in A. specialize (A Lb). lia. }
+    split.
+    - intros IN. apply (FR' b). apply in_or_app. auto.
+    - intros D. assert (In b (freed l ++ freed (log s))) as IN by (apply FR'; auto).
+      apply in_app_or in IN. tauto.
+  Qed.
+End Timing.
